@@ -1,6 +1,7 @@
 pub mod checks;
 pub mod enumerate;
 pub mod ev;
+pub mod geo;
 pub mod refcodec;
 pub mod refgeom;
 pub mod subj;
